@@ -46,26 +46,42 @@ def run(ctx):
     rng = ctx.rng
     quick = ctx.quick
 
-    if quick:
-        cfgs = list(S.QUICK_CORE) + S.pick_rational(rng, 4, exclude=S.QUICK_CORE)
-        cap = 700
-    else:
-        cfgs = S.all_rational() + S.pick_rational(rng, 300)
-        cap = 2000
-    results = S.pool_map(S.job_rows, [(c, cap, 3e6 if quick else 8e6) for c in cfgs])
+    # covering set: one member of every (plan class, knob) pair the REAL planner produces on a seeded pool (ratio x recipe x engine x
+    # knob: phase_response 0/25/75/100 by field or recipe flag, stopband_begin < 1 and > 1, passband_end, roll-off class, fractional
+    # precision), cheap implementation periods preferred, members rotating with the seed; plus the fixed core (tightest margins)
+    sel, st = S.cover(rng, S.KNOBS_SPECTRAL, S.COVER_RATIOS, per_ratio=2 if quick else 6, members=3, max_period=64 if quick else 400)
+    ctx.cov["covering_pool"] = st
+    members = [[c] for c in S.QUICK_CORE] + [e["members"] for e in sel]
+    cap = 700 if quick else 2000
+    if not quick:
+        members += [[c] for c in S.all_rational() + S.pick_rational(rng, 300)]
+    results = S.pool_map(S.job_rows_first, [(m, cap, 3e6 if quick else 8e6) for m in members])
     worst, n_eval, measured, sigs = {}, 0, 0, set()
     n_down = n_up = 0
+    classes_hit, engines_hit, knobs_hit, f1_seen = set(), set(), {}, []
+    for e, r in zip([None] * len(S.QUICK_CORE) + sel, results[:len(S.QUICK_CORE) + len(sel)]):
+        if e is not None and "pass" in r:
+            knobs_hit[e["knob"]] = knobs_hit.get(e["knob"], 0) + 1
+    ctx.cov["row_configurations_per_knob"] = knobs_hit
     for r in results:
         if "error" in r:
             ctx.violation("measurement crashed on %s: %s" % (r["label"], r["error"][-600:]), {"config": r["cfg"], "traceback": r["error"]}, no_input=True)
             continue
         if "skipped" in r:
             ctx.hist("skipped", r["skipped"].split(":")[0][:60])
+            if r.get("f1"):
+                f1_seen.append(r)
             continue
         measured += 1
         bits = r["bits"]
         lim = lim2(bits)
         sigs.add((r["engine"], r["plan"], bits, r["sb"]))
+        classes_hit.add(r["pclass"])
+        engines_hit.add(r["engine"])
+        fl = r.get("flags", {})
+        ctx.hist("rows_plan_class", r["pclass"])
+        ctx.hist("stopband_begin", "< 1" if r["sb"] < 1 else "> 1" if r["sb"] > 1 else "= 1 (recipe)")
+        ctx.hist("phase_response", "%g" % r["phase"])
         ctx.hist("engine", r["engine"])
         ctx.hist("grid_points_per_sidelobe_period", int(r["pass"]["nfft"] // r["W"]))
         if r["pass"]["nfft"] < 16 * r["W"]:
@@ -78,10 +94,18 @@ def run(ctx):
             n_down += 1
             n_eval += sm["nbins"] * r["LP"]
             m = sm["lvl"] / lim
-            worst["stopband_level/2^-bits"] = max(worst.get("stopband_level/2^-bits", 0), m)
+            wk = "stopband_level/2^-bits" + (" [F-PH1 / F-SG3 signature]" if fl.get("F-PH1") or fl.get("F-SG3") else "")
+            worst[wk] = max(worst.get(wk, 0), m)
+            if sm.get("lvl_low") is not None:
+                wk = "stopband_level between stopband_begin and the lower Nyquist limit/2^-bits"
+                worst[wk] = max(worst.get(wk, 0), sm["lvl_low"] / lim)
             samp.update(stopband_bins=sm["nbins"], n_fft=sm["nfft"], stopband_level_over_bound=round(m, 4),
                         stopband_level_dB=round(S.dB(sm["lvl"]), 2), at_x_input_nyquist=round(sm["lvl_w"] / math.pi, 6))
-            if m > 1:
+            fid = S.known_excess(r, "stop", m)
+            if fid:
+                ctx.known(fid, S.known_text(fid, r, "tone at %.6f x input Nyquist (stop band starts at %.6f) comes out at %.3g = %.1f dB = %.2f x 2^-bits"
+                                            % (sm["lvl_w"] / math.pi, sm["ws"] / math.pi, sm["lvl"], S.dB(sm["lvl"]), m)))
+            elif m > 1:
                 t = S.tone_job(r["cfg"], sm["lvl_w"] / math.pi, amp=1.0, kind="stop", nfit=20000)
                 ok = t.get("level", 0) > lim
                 ctx.violation("C02 stop band: %s: tone at %.6f x input Nyquist (stop band starts at %.6f) comes out at max_r|c_r| = %.3g = %.1f dB "
@@ -98,9 +122,14 @@ def run(ctx):
             pm = r["pass"]
             n_eval += pm["nbins"] * (r["LP"] - 1)
             m = pm["img"] / lim
-            worst["image_line/2^-bits"] = max(worst.get("image_line/2^-bits", 0), m)
+            wk = "image_line/2^-bits" + (" [F-PH1 signature]" if fl.get("F-PH1") else "")
+            worst[wk] = max(worst.get(wk, 0), m)
             samp.update(passband_bins=pm["nbins"], image_line_over_bound=round(m, 4), image_dB=round(S.dB(pm["img"]), 2))
-            if m > 1:
+            fid = S.known_excess(r, "img", m, level=pm["img"])
+            if fid:
+                ctx.known(fid, S.known_text(fid, r, "in-band tone at %.6f x input Nyquist has an image line of %.3g = %.1f dB = %.2f x 2^-bits"
+                                            % (pm["img_w"] / math.pi, pm["img"], S.dB(pm["img"]), m)))
+            elif m > 1:
                 lvl, fo = strongest_line(r["cfg"], pm["img_w"] / math.pi)
                 ok = lvl > lim
                 ctx.violation("C02 images: %s: in-band tone at %.6f x input Nyquist has an image line of %.3g = %.1f dB = %.2f x 2^-bits; "
@@ -116,14 +145,22 @@ def run(ctx):
     ctx.count("row_inequality_evaluations", n_eval)
 
     # ---------------- end-to-end exploration: stop-band tones (down) and image lines (up), any ratio
-    n_fit = 60 if quick else 2000
+    # every interpolated / irrational planner path x knob.  Down-sampling: a sum of 8 stop-band tones stratified over the WHOLE band from
+    # the configured stop-band start to the input Nyquist limit (first percent above the start, the stretch below the lower Nyquist limit
+    # when stopband_begin < 1, first alias zone, equal strata of the rest); up-sampling: image lines of two in-band tones
+    sel_t, st_t = S.cover(rng, ["base", "ph*", "sb<1", "sb>1", "pb", "prec"], S.COVER_IRRATIONAL + S.RATIOS_ARB, per_ratio=2 if quick else 6,
+                          members=1, max_period=1 << 30, rtflags=(None, None, 2, 3))
+    ctx.cov["covering_pool_tones"] = st_t
     jobs = []
-    for c in S.pick_any(rng, 3 * n_fit):
-        if len(jobs) >= n_fit:
-            break
+    nfit = 8000 if quick else 12000
+    cfgs_t = [e["members"][0] for e in sel_t] + S.pick_any(rng, 40 if quick else 2000)
+    for c in cfgs_t:
         down = float(c["ir"]) > float(c["orr"])
-        kw = dict(amp=0.95, phase0=rng.uniform(0, 6.28), nfit=8000 if quick else 12000, _frac=rng.uniform(0.0, 1.0), _down=down)
-        jobs.append((c, kw))
+        if down:
+            jobs.append((c, dict(_multi=rng.below(1 << 30), nfit=nfit)))
+        else:
+            for frac in (rng.uniform(0.0, 0.95), rng.uniform(0.95, 1.0)):
+                jobs.append((c, dict(amp=0.95, phase0=rng.uniform(0, 6.28), nfit=nfit, _frac=frac, _down=False)))
     fits = S.pool_map(job_stop, jobs)
     n_fits = 0
     for t in fits:
@@ -132,27 +169,67 @@ def run(ctx):
             continue
         if "skipped" in t:
             ctx.hist("fit_skipped", t["skipped"][:50])
+            if t.get("f1"):
+                f1_seen.append(t)
             continue
         n_fits += 1
         lim = lim2(t["bits"])
         sigs.add((t["engine"], t["plan"], t["bits"], t["sb"]))
+        classes_hit.add(t["pclass"])
+        engines_hit.add(t["engine"])
+        fl = t.get("flags", {})
         ctx.hist("fit_engine", t["engine"])
-        ctx.hist("fit_stage_kinds", t["kinds"])
-        rep = {"config": t["cfg"], "plan": t["plan"], "engine": t["engine"], "frequency_x_input_nyquist": t["f_in"], "amplitude": 0.95,
-               "window_output_frames": t["n_fit"], "horizon_output_frames": t["horizon"]}
-        if "level" in t:
-            ctx.hist("fit_kind", "stop-band tone (down-sampling)")
-            worst["tone_level/2^-bits"] = max(worst.get("tone_level/2^-bits", 0), t["level"] / lim)
-            if t["level"] > lim:
-                ctx.violation("C02 stop band (end to end): %s: tone at %.6f x input Nyquist comes out at %.3g = %.1f dB (bound 2^-bits = %.3g = %.1f dB)"
-                              % (t["label"], t["f_in"], t["level"], S.dB(t["level"]), lim, S.dB(lim)), dict(rep, measured_level=t["level"], bound=lim))
+        ctx.hist("fit_plan_class", t["pclass"])
+        if "freqs" in t:
+            ctx.hist("fit_kind", "sum of stratified stop-band tones (down-sampling)")
+            bound = lim * t["sum_amp"]
+            m = t["level"] / bound
+            wk = "multitone_level/(2^-bits x sum of amplitudes)" + (" [F-PH1 signature]" if fl.get("F-PH1") else "")
+            worst[wk] = max(worst.get(wk, 0), m)
+            fid = S.known_excess(t, "stop", m)
+            if fid:
+                ctx.known(fid, S.known_text(fid, t, "sum of stop-band tones comes out at %.3g = %.2f x bound" % (t["level"], m)))
+            elif m > 1:
+                single = t.get("single_level", 0) > lim
+                ctx.violation("C02 stop band (end to end): %s: a sum of %d stop-band tones (amplitude %.4f each, from %.6f x input Nyquist up) comes out at "
+                              "%.3g = %.1f dB, %.2f x the bound 2^-bits x sum of amplitudes; alone, the tone at %.6f x input Nyquist (stop band starts at "
+                              "%.6f) comes out at %.3g = %.1f dB of its amplitude (bound %.3g = %.1f dB)"
+                              % (t["label"], len(t["freqs"]), t["amp_each"], t["freqs"][0], t["level"], S.dB(t["level"]), m, t.get("single_f", float("nan")),
+                                 t["sb"] * min(1.0, float(t["cfg"]["orr"]) / float(t["cfg"]["ir"])), t.get("single_level", float("nan")),
+                                 S.dB(t.get("single_level", 0)), lim, S.dB(lim)),
+                              {"config": t["cfg"], "plan": t["plan"], "engine": t["engine"], "tone_frequencies_x_input_nyquist": t["freqs"],
+                               "amplitude_each": t["amp_each"], "signal_seed": t["seed"], "failing_single_tone_x_input_nyquist": t.get("single_f"),
+                               "measured_level_single_tone": t.get("single_level"), "measured_level_sum": t["level"], "bound": lim,
+                               "window_output_frames": t["n_fit"], "horizon_output_frames": t["horizon"],
+                               "replay": "harness/signal/run.c " + " ".join(S.cfg_args(t["cfg"])) + "  < sine of the failing frequency, amplitude 0.9 (float64)"},
+                              no_input=not single)
         else:
             ctx.hist("fit_kind", "image lines of an in-band tone (up-sampling)")
-            worst["tone_image/2^-bits"] = max(worst.get("tone_image/2^-bits", 0), t["image"] / lim)
-            if t["image"] > lim:
+            rep = {"config": t["cfg"], "plan": t["plan"], "engine": t["engine"], "frequency_x_input_nyquist": t["f_in"], "amplitude": 0.95,
+                   "window_output_frames": t["n_fit"], "horizon_output_frames": t["horizon"],
+                   "replay": "harness/signal/run.c " + " ".join(S.cfg_args(t["cfg"])) + "  < sine of that frequency, amplitude 0.95 (float64)"}
+            m = t["image"] / lim
+            wk = "tone_image/2^-bits" + (" [F-PH1 signature]" if fl.get("F-PH1") else "")
+            worst[wk] = max(worst.get(wk, 0), m)
+            fid = S.known_excess(t, "img", m, level=t["image"])
+            if fid:
+                ctx.known(fid, S.known_text(fid, t, "in-band tone at %.6f x input Nyquist leaves an image line of %.3g = %.2f x 2^-bits" % (t["f_in"], t["image"], m)))
+            elif m > 1:
                 ctx.violation("C02 images (end to end): %s: in-band tone at %.6f x input Nyquist leaves an image line of %.3g = %.1f dB (bound %.3g)"
                               % (t["label"], t["f_in"], t["image"], S.dB(t["image"]), lim), dict(rep, measured_level=t["image"], bound=lim))
     ctx.count("end_to_end_tones", n_fits)
+
+    # ---------------- planner paths hit; known finding F1 probed on members the pool produced
+    miss = S.missing_classes(classes_hit, S.REQUIRED_CLASSES + S.REQUIRED_ORDERS) + ["engine " + e for e in S.REQUIRED_ENGINES if e not in engines_hit]
+    ctx.cov["plan_classes_hit"] = len(classes_hit)
+    ctx.cov["required_classes_missing"] = miss
+    for name in miss:
+        ctx.violation("coverage: no measured configuration of this run went through the planner path `%s` (the covering pool no longer produces it)"
+                      % name, {"missing_class": name, "classes_hit": sorted(classes_hit)}, no_input=True)
+    ctx.count("f1_signature_configurations_set_aside", len(f1_seen))
+    for txt in S.pool_map(probe_f1_image, [r["cfg"] for r in f1_seen[:4]]):
+        if txt:
+            ctx.known("F1", txt)
 
     ctx.cov["worst_margins"] = {k: round(v, 5) for k, v in sorted(worst.items())}
     ctx.cov["worst_margins_note"] = "ratios measured/bound (< 1 holds); bound = 2^-bits of the tone's amplitude (6.02 dB per bit)"
@@ -178,6 +255,10 @@ def run(ctx):
                       {"broken": broken, "falsifier": "measurement found no failing tone on this run"}, no_input=True)
 
 
+def probe_f1_image(c):
+    return S.probe_f1(c, "image")
+
+
 def job_stop(args):
     c, kw = args
     try:
@@ -185,16 +266,19 @@ def job_stop(args):
         if "error" in info:
             return {"cfg": c, "label": S.cfg_label(c), "skipped": "create failed: " + info["error"]}
         kw = dict(kw)
+        if "_multi" in kw:
+            if not info.get("engine", "").startswith("cr") or S.bits_of(info) < 15:
+                return {"cfg": c, "label": S.cfg_label(c), "skipped": "property does not speak (precision < 15 bits)"}
+            if S.f1_exact(info):
+                return {"cfg": c, "label": S.cfg_label(c), "skipped": "known finding F1 signature", "f1": True}
+            d = S.stop_multitone_job(c, kw["_multi"], nfit=kw["nfit"])
+            d.update(cfg=c, label=S.cfg_label(c), seed=kw["_multi"])
+            return d
         frac, down = kw.pop("_frac"), kw.pop("_down")
         ratio = float(c["ir"]) / float(c["orr"])
         nyq_low = min(1.0, 1.0 / ratio)
-        fs = info["q"]["sb"] * nyq_low
-        if down and fs < 0.9999:
-            kw["kind"] = "stop"
-            kw["f_in"] = fs + frac * (0.9999 - fs)              # stop-band start ... just under input Nyquist
-        else:
-            kw["kind"] = "pass"
-            kw["f_in"] = (0.02 + 0.979 * frac) * info["q"]["pb"] * nyq_low
+        kw["kind"] = "pass"
+        kw["f_in"] = (0.02 + 0.979 * frac) * min(info["q"]["pb"], 2 - info["q"]["sb"]) * nyq_low
         return S.job_tone((c, kw))
     except Exception:
         import traceback
